@@ -1399,6 +1399,77 @@ class Call(DomainMapping):
         else:
             yield HashedValue(id_=value.id_, value=value.value())
 
+    @cached_property
+    def _symbolic_arguments_(self) -> List[SymbolicExpression]:
+        """
+        :return: The arguments of the call that are symbolic expressions, they are evaluated for every call.
+        """
+        return [
+            argument
+            for argument in (*self._args_, *self._kwargs_.values())
+            if isinstance(argument, SymbolicExpression)
+        ]
+
+    @cached_property
+    def _all_variable_instances_(self) -> List[Variable]:
+        variables = list(self._child_._all_variable_instances_)
+        for argument in self._symbolic_arguments_:
+            variables.extend(argument._all_variable_instances_)
+        return variables
+
+    def _evaluate__(
+        self,
+        sources: Optional[Dict[int, HashedValue]] = None,
+        parent: Optional[SymbolicExpression] = None,
+    ) -> Iterable[OperationResult]:
+        if not self._symbolic_arguments_:
+            yield from super()._evaluate__(sources, parent)
+            return
+
+        sources = sources or {}
+        self._eval_parent_ = parent
+        is_a_condition = self._is_evaluated_as_a_condition_(parent)
+        if self._id_ in sources:
+            yield self._build_operation_result_and_update_truth_value_(
+                OperationResult(sources, False, self),
+                sources[self._id_],
+                is_a_condition,
+            )
+            return
+
+        def evaluate_arguments(arguments, bindings, values):
+            # evaluate the symbolic arguments one after the other, each under the bindings of the ones before it
+            if not arguments:
+                yield bindings, list(values)
+                return
+            argument, remaining_arguments = arguments[0], arguments[1:]
+            if not isinstance(argument, SymbolicExpression):
+                yield from evaluate_arguments(
+                    remaining_arguments, bindings, values + [argument]
+                )
+                return
+            for argument_result in argument._evaluate__(bindings, parent=self):
+                yield from evaluate_arguments(
+                    remaining_arguments,
+                    argument_result.bindings,
+                    values + [argument_result[argument._id_].value],
+                )
+
+        keywords = list(self._kwargs_.keys())
+        all_arguments = [*self._args_, *self._kwargs_.values()]
+        for child_result in self._child_._evaluate__(sources, parent=self):
+            function = child_result[self._child_._id_].value
+            for bindings, values in evaluate_arguments(
+                all_arguments, child_result.bindings, []
+            ):
+                positional_values = values[: len(self._args_)]
+                keyword_values = dict(zip(keywords, values[len(self._args_) :]))
+                yield self._build_operation_result_and_update_truth_value_(
+                    OperationResult(bindings, False, self),
+                    HashedValue(function(*positional_values, **keyword_values)),
+                    is_a_condition,
+                )
+
     @property
     def _name_(self):
         return f"{self._child_._var_._name_}()"
